@@ -170,6 +170,18 @@ CHECKS = {
              "prepared eagerly; re-evaluation of a violated lambda at most once) the reference accepts both.",
         technique="explicit exhaustive enumeration on the real code, full event-log equality with a reference interpreter",
         design="3/C16"),
+    "C18": dict(
+        text="Exhaustive exploration of family-F programs (all callable kinds incl. property accessors, constructors, static/class "
+             "methods; DBC chains with gaps; foreign functools.wraps decorators at top/middle/bottom; def and lambda conditions) x "
+             "all truth assignments: the verdict obtained by evaluating the documented introspection lists by hand (find_checker, "
+             "__preconditions__ as DNF groups, snapshots, __postconditions__, class __invariants__ - as the documented "
+             "integrators do) must equal the verdict of the real call; the lists must name exactly the effective contracts of "
+             "the declaration; exactly one checker per stack. 14 class-creation shapes (DBC subclasses, invariant classes, "
+             "multiple inheritance, metaclass=DBCMeta directly, dynamic DBCMeta(...), __init_subclass__ overrides, slots, "
+             "abstract) must each be announced exactly once to a patched registration hook.",
+        note="Trusted: CPython, family-F renderer/reference for the expected lists, the hand evaluator (mirrors tests/test_for_integrators.py).",
+        technique="exhaustive enumeration on the real code: manual evaluation of introspected contract lists vs the wrapper's verdict (differential)",
+        design="3/C18"),
 }
 
 NOT_APPLICABLE = []
